@@ -116,3 +116,45 @@ impl<S: Stream + Unpin> StreamSource<S> {
             !end_of_stream ==> r == Ok::<PostAction, StreamError>(action),
 //@ endslice
 }
+
+//@ region stream_src_spec props=C16,C07,C15
+impl<S: Stream + Unpin> StreamSource<S> {
+    pub closed spec fn src(&self) -> PingSource { self.source }
+}
+//@ endregion
+//@ open src/sources/stream.rs / impl EventSource for StreamSource<S>
+//@ item src/sources/stream.rs / impl EventSource for StreamSource<S> / type Event props=C16,C07,C15
+//@ enditem
+//@ item src/sources/stream.rs / impl EventSource for StreamSource<S> / type Metadata props=C16,C07,C15
+//@ enditem
+//@ item src/sources/stream.rs / impl EventSource for StreamSource<S> / type Ret props=C16,C07,C15
+//@ enditem
+//@ item src/sources/stream.rs / impl EventSource for StreamSource<S> / type Error props=C16,C07,C15
+//@ enditem
+//@ region streamsource_protocol props=C16,C07,C15
+    // as far as registration goes the source IS its ping source (whose registration is that of its Generic<eventfd>)
+    open spec fn wf(&self) -> bool { self.src().wf() }
+    open spec fn registered(&self) -> bool { self.src().registered() }
+    open spec fn register_req(&self) -> bool { self.src().register_req() }
+    open spec fn register_ens(o: &Self, n: &Self, ok: bool) -> bool { PingSource::register_ens(&o.src(), &n.src(), ok) }
+    open spec fn reregister_req(&self) -> bool { self.src().reregister_req() }
+    open spec fn reregister_ens(o: &Self, n: &Self, ok: bool) -> bool { PingSource::reregister_ens(&o.src(), &n.src(), ok) }
+    open spec fn unregister_req(&self) -> bool { self.src().unregister_req() }
+    open spec fn unregister_ens(o: &Self, n: &Self, ok: bool) -> bool { PingSource::unregister_ens(&o.src(), &n.src(), ok) }
+    open spec fn process_req(&self) -> bool { self.src().process_req() }
+    open spec fn may_call(&self, readiness: Readiness, token: Token, e: Option<S::Item>) -> bool { true }
+    open spec fn cb_req<CbF: FnMut(Option<S::Item>, &mut ())>(&self, readiness: Readiness, token: Token, callback: CbF) -> bool { true }
+    open spec fn process_ens(o: &Self, n: &Self, readiness: Readiness, token: Token, r: Result<PostAction, StreamError>) -> bool { true }
+//@ endregion
+//@ item src/sources/stream.rs / impl EventSource for StreamSource<S> / fn process_events props=C16,C07,C15 sigonly
+//@ rw R8 1 <<process_events<F>>> => <<process_events<CbF>>>
+//@ rw R8 1 <<mut callback: F,>> => <<mut callback: CbF,>>
+//@ rw R8 1 <<F: FnMut(Option<S::Item>, &mut ()),>> => <<CbF: FnMut(Option<S::Item>, &mut ()),>>
+//@ enditem
+//@ item src/sources/stream.rs / impl EventSource for StreamSource<S> / fn register props=C16,C07,C15
+//@ enditem
+//@ item src/sources/stream.rs / impl EventSource for StreamSource<S> / fn reregister props=C16,C07,C15
+//@ enditem
+//@ item src/sources/stream.rs / impl EventSource for StreamSource<S> / fn unregister props=C16,C07,C15
+//@ enditem
+//@ close
